@@ -13,6 +13,7 @@ form together with the cofactors  N = NF + sum_r q_r * (lhs_r - rhs_r)  -- the c
 back end (z3) re-checks as a pure polynomial identity.
 """
 from fractions import Fraction
+import math
 from .terms import SR, SB, subterms, EngineError, show
 
 # ------------------------------------------------------------------------------------------------
@@ -149,6 +150,47 @@ def p_eval(a, env):
     return tot
 
 
+def p_divexact(n, d):
+    """exact quotient n / d of sparse polynomials, or None if d does not divide n"""
+    if not d:
+        return None
+    if not n:
+        return {}
+    gens = sorted(p_gens(n) | p_gens(d))
+    pos = {g: i for i, g in enumerate(gens)}
+    k = len(gens)
+
+    def key(m):
+        v = [0] * k
+        for g, e in m:
+            v[pos[g]] = e
+        return tuple(v)
+    dk = {key(m): c for m, c in d.items()}
+    lead_d = max(dk)
+    lc_d = dk[lead_d]
+    rem = {key(m): c for m, c in n.items()}
+    q = {}
+    steps = 0
+    while rem:
+        steps += 1
+        if steps > 200000:
+            return None
+        lm = max(rem)
+        qe = tuple(a - b for a, b in zip(lm, lead_d))
+        if min(qe, default=0) < 0:
+            return None
+        qc = rem[lm] / lc_d
+        q[qe] = qc
+        for m, c in dk.items():
+            mm = tuple(a + b for a, b in zip(qe, m))
+            v = rem.get(mm, 0) - qc * c
+            if v == 0:
+                rem.pop(mm, None)
+            else:
+                rem[mm] = v
+    return {tuple((gens[i], e) for i, e in enumerate(m) if e): c for m, c in q.items()}
+
+
 # ------------------------------------------------------------------------------------------------
 # generators, atoms and rules
 
@@ -169,6 +211,10 @@ class Algebra:
         self.atom_info = {}        # gen -> (fname, argnum, argden)
         self.next_gen = 0
         self.sincos = {}           # canonical arg key -> {'sin': gen, 'cos': gen}
+        self.abs_of_gen = {}       # gen of |x| -> gen x
+        self.rules_lin = {}        # gen -> poly  (gen -> poly, any power)
+        self.oracle = None         # callable(SB) -> True if the current path's hypotheses entail it (else False/None)
+        self._scopes = []
         self.name_of_gen = {}
 
     # -- generators -------------------------------------------------------------------------------
@@ -198,6 +244,31 @@ class Algebra:
         self.rules_prod[k] = rhs
         self.rule_names[('pr',) + k] = name
 
+    _STATE = ('gen_of_node', 'node_of_gen', 'atom_intern', 'den_intern', 'den_poly', 'rf_cache', 'rules_sq',
+              'rules_prod', 'rule_names', 'atom_info', 'sincos', 'name_of_gen', 'abs_of_gen', 'rules_lin')
+
+    def push(self):
+        self._scopes.append(({k: dict(getattr(self, k)) for k in self._STATE}, self.next_gen))
+
+    def pop(self):
+        st, ng = self._scopes.pop()
+        for k, v in st.items():
+            setattr(self, k, v)
+        self.next_gen = ng
+
+    def add_var_linear_rule(self, var_node, rhs_term, name=None):
+        """path-scoped substitution  var -> rhs_term (rhs must not mention var)"""
+        g = self.gen_for_var(var_node)
+        num, den = self.rf(rhs_term)
+        if den:
+            raise EngineError("rule right-hand side must be polynomial")
+        num = self.reduce(num)[0]
+        if g in p_gens(num):
+            raise EngineError("linear rule is cyclic")
+        self.rules_lin[g] = num
+        self.rule_names[('lin', g)] = name or ('%s -> %s' % (var_node.extra, show(rhs_term)))
+        self.rf_cache = {k: v for k, v in self.rf_cache.items() if not (isinstance(k, tuple) and k and k[0] == 'cmp')}
+
     def add_var_square_rule(self, var_node, rhs_term, name=None):
         """user rule  var^2 -> rhs_term   (e.g. unit quaternion)"""
         g = self.gen_for_var(var_node)
@@ -214,7 +285,160 @@ class Algebra:
                            name or ('%s*%s -> %s' % (v1.extra, v2.extra, show(rhs_term))))
 
     # -- atoms ------------------------------------------------------------------------------------
-    def _atom(self, node, fname, argrfs):
+    def _norm_rf(self, rf):
+        """reduce numerator by the rules and apply monomial rules to denominator symbols"""
+        num, den = rf
+        num = self.reduce(num)[0]
+        if den:
+            den = dict(den)
+            for g in list(den):
+                base = self.abs_of_gen.get(g)      # g = |x| for a generator x : g^2 -> x^2
+                if base is not None and den[g] >= 2:
+                    k = den[g] // 2
+                    den[g] -= 2 * k
+                    if den[g] == 0:
+                        del den[g]
+                    den[base] = den.get(base, 0) + 2 * k
+            # g^2 in the denominator with a rule g^2 -> P : cancel when P divides the numerator exactly
+            for g in list(den):
+                while den.get(g, 0) >= 2 and g in self.rules_sq and g not in self.abs_of_gen:
+                    P = self.reduce(self.rules_sq[g])[0]
+                    qn = p_divexact(num, P) if P else None
+                    if qn is None:
+                        break
+                    num = qn
+                    den[g] -= 2
+                    if den[g] == 0:
+                        del den[g]
+            num, den = self._cancel(num, den)
+        return (num, den)
+
+    def _nonneg_gen(self, g):
+        info = self.atom_info.get(g)
+        if info is not None and info[0] in ('sqrt', 'abs', 'arccos'):
+            return True
+        n = self.node_of_gen.get(g)
+        return n is not None and n.op == 'v' and n.extra == 'pi'
+
+    def _abs_gen_poly(self, g):
+        """polynomial for |x| where x is the generator g"""
+        if self._nonneg_gen(g):
+            return p_gen(g)
+        from .terms import fn as _fn, le as _le, ZERO as _Z
+        node = self.node_of_gen[g]
+        if self.oracle is not None and node is not None:
+            if self.oracle(_le(_Z, node)):
+                return p_gen(g)
+            if self.oracle(_le(node, _Z)):
+                return p_neg(p_gen(g))
+        anode = _fn('abs', node)
+        ag = self.gen_of_node.get(anode.id)
+        if ag is None:
+            ag = self._atom_gen(anode, 'abs', ((p_gen(g), {}),))
+            self.gen_of_node[anode.id] = ag
+            self.abs_of_gen[ag] = g
+        return p_gen(ag)
+
+    def _atom_rf(self, node, fname, argrfs):
+        """rational function of an atom application, simplified where the canonical argument allows"""
+        if fname == 'tan':
+            from .terms import fn as _fn
+            s = self.rf(_fn('sin', node.args[0]))
+            c = self.rf(_fn('cos', node.args[0]))
+            return self._rf_mul(s, self._rf_inv(c))
+        if len(argrfs) == 1 and fname in ('sqrt', 'abs', 'sin', 'cos'):
+            num, den = argrfs[0] = self._norm_rf(argrfs[0])
+            if not num:
+                return ({(): Fraction(1)} if fname == 'cos' else {}, {})
+            if fname in ('sqrt', 'abs') and p_is_monomial(num):
+                (m, c), = num.items()
+                ok = True
+                if fname == 'sqrt':
+                    # perfect-square monomial / perfect-square denominator: sqrt(c m^2 / d^2) = sqrt(c) |m| / |d|
+                    if c < 0 or any(e % 2 for _, e in m) or any(e % 2 for e in den.values()):
+                        ok = False
+                    else:
+                        rn, rd = math.isqrt(c.numerator), math.isqrt(c.denominator)
+                        if rn * rn != c.numerator or rd * rd != c.denominator:
+                            ok = False
+                    if ok:
+                        out = p_const(Fraction(rn, rd))
+                        for g, e in m:
+                            out = p_mul(out, p_pow(self._abs_gen_poly(g), e // 2))
+                        dd = {}
+                        for g, e in den.items():
+                            if g in self.den_poly:
+                                ok = False
+                                break
+                            ap = self._abs_gen_poly(g)
+                            (am, _), = ap.items()
+                            dd[am[0][0]] = dd.get(am[0][0], 0) + e // 2
+                        if ok:
+                            return self._cancel(out, dd)
+                else:
+                    # |c * prod g^e / prod d^e|
+                    if all(g not in self.den_poly for g in den):
+                        out = p_const(abs(c))
+                        for g, e in m:
+                            out = p_mul(out, p_pow(self._abs_gen_poly(g), e))
+                        dd = {}
+                        for g, e in den.items():
+                            ap = self._abs_gen_poly(g)
+                            (am, _), = ap.items()
+                            dd[am[0][0]] = dd.get(am[0][0], 0) + e
+                        return self._cancel(out, dd)
+            if fname in ('sin', 'cos') and not den and p_is_monomial(num):
+                (m, c), = num.items()
+                if len(m) == 1 and m[0][1] == 1 and self._is_pi(m[0][0]) and (2 * c).denominator == 1:
+                    q = int(2 * c) % 4
+                    val = {'sin': [0, 1, 0, -1], 'cos': [1, 0, -1, 0]}[fname][q]
+                    return (p_const(val), {})
+            if fname in ('sin', 'cos') and num:
+                # odd/even symmetry: canonical sign of the argument (leading coefficient positive)
+                lead = min(num)
+                if num[lead] < 0:
+                    pos = (p_neg(num), den)
+                    from .terms import fn as _fn, neg as _neg
+                    g = self._atom_gen(_fn(fname, _neg(node.args[0])), fname, (pos,))
+                    return (p_neg(p_gen(g)) if fname == 'sin' else p_gen(g), {})
+        if len(argrfs) == 1 and fname in ('sin', 'cos'):
+            num, den = argrfs[0]
+            if not den and p_is_monomial(num):
+                (m, c), = num.items()
+                if c == 1 and len(m) == 1 and m[0][1] == 1:
+                    inner = self.atom_info.get(m[0][0])
+                    if inner is not None and inner[0] == 'arccos':
+                        # cos(arccos x) = x ; sin(arccos x) = sqrt(1 - x^2)   (x in [-1, 1]: arccos's own safety VC)
+                        xnode = self.node_of_gen[m[0][0]].args[0]
+                        if fname == 'cos':
+                            return self.rf(xnode)
+                        from .terms import fn as _fn, add as _add, neg as _neg, mul as _mul, ONE as _ONE
+                        return self.rf(_fn('sqrt', _add(_ONE, _neg(_mul(xnode, xnode)))))
+        if len(argrfs) == 1 and fname == 'abs' and self.oracle is not None:
+            from .terms import le as _le, ZERO as _Z
+            if self.oracle(_le(_Z, node.args[0])):
+                return argrfs[0]
+            if self.oracle(_le(node.args[0], _Z)):
+                return (p_neg(argrfs[0][0]), argrfs[0][1])
+        if len(argrfs) == 1 and fname == 'arccos' and self.oracle is not None:
+            num, den = argrfs[0] = self._norm_rf(argrfs[0])
+            if not den and p_is_monomial(num):
+                (m, c), = num.items()
+                if c == 1 and len(m) == 1 and m[0][1] == 1:
+                    inner = self.atom_info.get(m[0][0])
+                    if inner is not None and inner[0] == 'cos':
+                        tnode = self.node_of_gen[m[0][0]].args[0]
+                        from .terms import le as _le, ZERO as _Z, PI as _PI, sand as _sand
+                        if self.oracle(_sand(_le(_Z, tnode), _le(tnode, _PI))):
+                            return self.rf(tnode)
+        g = self._atom_gen(node, fname, tuple(argrfs))
+        return (p_gen(g), {})
+
+    def _is_pi(self, g):
+        n = self.node_of_gen.get(g)
+        return n is not None and n.op == 'v' and n.extra == 'pi'
+
+    def _atom_gen(self, node, fname, argrfs):
         key = (fname,) + tuple((p_key(n), frozenset(d.items())) for n, d in argrfs)
         g = self.atom_intern.get(key)
         if g is not None:
@@ -228,6 +452,10 @@ class Algebra:
                 self.add_square_rule(g, num, 'sqrt(t)^2 = t')
             elif fname == 'abs' and not den:
                 self.add_square_rule(g, p_mul(num, num), '|t|^2 = t^2')
+                if p_is_monomial(num):
+                    (m, c), = num.items()
+                    if c == 1 and len(m) == 1 and m[0][1] == 1:
+                        self.abs_of_gen[g] = m[0][0]
             elif fname in ('sin', 'cos'):
                 d = self.sincos.setdefault(key[1], {})
                 d[fname] = g
@@ -236,11 +464,33 @@ class Algebra:
                     if 'sin' not in d:
                         from .terms import fn as _fn
                         snode = _fn('sin', node.args[0])
-                        sg = self._atom(snode, 'sin', argrfs)
-                        self.gen_of_node[snode.id] = sg
+                        sg = self._atom_gen(snode, 'sin', argrfs)
+                        self.gen_of_node.setdefault(snode.id, sg)
                     self.add_square_rule(g, p_add(p_const(1), p_neg(p_pow(p_gen(d['sin']), 2))),
                                          'cos(t)^2 = 1 - sin(t)^2')
+                    self._half_angle_rules(d, num, den)
         return g
+
+    def _half_angle_rules(self, d, num, den):
+        """if the argument is b/2 for a generator b:  sin^2 = (1 - cos b)/2, cos^2 = (1 + cos b)/2,
+        sin*cos = sin(b)/2   (half-angle formulas)"""
+        if den or not p_is_monomial(num):
+            return
+        (m, c), = num.items()
+        if c != Fraction(1, 2) or len(m) != 1 or m[0][1] != 1:
+            return
+        bnode = self.node_of_gen.get(m[0][0])
+        if bnode is None:
+            return
+        from .terms import fn as _fn
+        cb = self.rf(_fn('cos', bnode))
+        sb = self.rf(_fn('sin', bnode))
+        if cb[1] or sb[1]:
+            return
+        half = Fraction(1, 2)
+        self.add_square_rule(d['sin'], p_scale(p_add(p_const(1), p_neg(cb[0])), half), 'sin(b/2)^2 = (1 - cos b)/2')
+        self.add_square_rule(d['cos'], p_scale(p_add(p_const(1), cb[0]), half), 'cos(b/2)^2 = (1 + cos b)/2')
+        self.add_prod_rule(d['sin'], d['cos'], p_scale(sb[0], half), 'sin(b/2) cos(b/2) = sin(b)/2')
 
     # -- term -> rational function -----------------------------------------------------------------
     def rf(self, term):
@@ -269,12 +519,8 @@ class Algebra:
                 a, b = cache[n.args[0].id], cache[n.args[1].id]
                 r = self._rf_mul(a, self._rf_inv(b))
             elif op in ('fn', 'fn2', 'uf'):
-                g = self.gen_of_node.get(n.id)
-                if g is None:
-                    fname = n.extra if op != 'uf' else 'uf:' + n.extra
-                    g = self._atom(n, fname, tuple(cache[a.id] for a in n.args))
-                    self.gen_of_node[n.id] = g
-                r = (p_gen(g), {})
+                fname = n.extra if op != 'uf' else 'uf:' + n.extra
+                r = self._atom_rf(n, fname, [cache[a.id] for a in n.args])
             elif op == 'ite':
                 g = self.gen_of_node.get(n.id)
                 if g is None:
@@ -396,7 +642,8 @@ class Algebra:
         """normal form of poly modulo the rules.  returns (nf, cert) ; cert: rulekey -> cofactor"""
         rules_sq = self.rules_sq
         rules_prod = self.rules_prod
-        if not rules_sq and not rules_prod:
+        rules_lin = self.rules_lin
+        if not rules_sq and not rules_prod and not rules_lin:
             return poly, {}
         prod_gens = set()
         for (a, b) in rules_prod:
@@ -410,6 +657,9 @@ class Algebra:
             m, c = work.popitem()
             hit = None
             for idx, (g, e) in enumerate(m):
+                if rules_lin and g in rules_lin:
+                    hit = ('lin', g, idx)
+                    break
                 if e >= 2 and g in rules_sq:
                     hit = ('sq', g, idx)
                     break
@@ -435,7 +685,12 @@ class Algebra:
             steps += 1
             if steps > max_steps:
                 raise TooLarge("reduction did not finish in %d steps" % max_steps)
-            if hit[0] == 'sq':
+            if hit[0] == 'lin':
+                g = hit[1]
+                rest = tuple((gg, ee - 1) if gg == g else (gg, ee) for gg, ee in m if not (gg == g and ee == 1))
+                rhs = rules_lin[g]
+                key = ('lin', g)
+            elif hit[0] == 'sq':
                 g = hit[1]
                 rest = tuple((gg, ee - 2) if gg == g else (gg, ee) for gg, ee in m if not (gg == g and ee == 2))
                 rhs = rules_sq[g]
@@ -471,6 +726,8 @@ class Algebra:
         return out, cert
 
     def rule_lhs_minus_rhs(self, key):
+        if key[0] == 'lin':
+            return p_add(p_gen(key[1]), p_neg(self.rules_lin[key[1]]))
         if key[0] == 'sq':
             lhs = {((key[1], 2),): Fraction(1)}
             rhs = self.rules_sq[key[1]]
@@ -485,6 +742,36 @@ class Algebra:
         num, den = self.rf(add(a, neg(b)))
         nf, cert = self.reduce(num, want_cert)
         return nf, cert, num, den
+
+    def canon_cmp(self, op, a, b):
+        """canonical form of `a op b`: True/False when decided by the normal form, else (op, poly) meaning
+        poly op 0.  N/D op 0 is N*D op 0 for < and <= (D != 0 is a safety obligation), N == 0 for ==."""
+        from .terms import add, neg
+        key = ('cmp', op, a.id, b.id)
+        got = self.rf_cache.get(key)
+        if got is not None:
+            return got
+        num, den = self.rf(add(a, neg(b)))
+        num = self.reduce(num)[0]
+        if op != '==' and den:
+            # multiply by the odd-power denominator symbols whose sign is not known to be positive
+            for g, e in den.items():
+                if e % 2 and not self._nonneg_gen(g):
+                    f = self.den_poly.get(g) or p_gen(g)
+                    num = p_mul(num, f)
+            num = self.reduce(num)[0]
+        if not num:
+            r = op in ('<=', '==')
+        elif len(num) == 1 and () in num:
+            c = num[()]
+            r = (c < 0) if op == '<' else ((c <= 0) if op == '<=' else False)
+        else:
+            # normalise the scale (positive factor) so that equal conditions get equal polynomials
+            lead = min(num)
+            k = abs(num[lead])
+            r = (op, p_scale(num, 1 / k))
+        self.rf_cache[key] = r
+        return r
 
     def show_poly(self, p, limit=6):
         if not p:
